@@ -81,7 +81,7 @@ ASSUME \A a \in CoreAtoms, b \in CoreAtoms :
 (* come in every order.  Bind maps parameter -> Canon of the bound value.   *)
 ParamLists ==      \* a parameter list = the sequence of its defaults, "-" = no default
   UNION {{s \in [1..n -> {"-"} \cup DefaultIds] :
-            \A k \in 1..(n - 1) : s[k] # "-" => s[k + 1] # "-"} : n \in 1..MaxParams}
+            \A k \in 1..(n - 1) : s[k] # "-" => s[k + 1] # "-"} : n \in MinParams..MaxParams}
 
 How == {"pos", "kw", "omit"}
 Spellings(ps) ==
